@@ -26,6 +26,7 @@ def error_class(desc):
     first = desc.splitlines()[0] if desc else ""
     first = re.sub(r"^Compiler error at line \d+:\d+: ", "", first)
     first = re.sub(r"'[^']*'", "'?'", first)
+    first = re.sub(r"(undefined function|Function) \S+", r"\1 ?", first)
     first = re.sub(r"\d+", "N", first)
     return first[:60]
 
